@@ -238,4 +238,84 @@ def rustAniCi {V : Type} [Sub V] [OfNat V 0] [OfNat V 1] (root1 root2 : Option V
     | some r1, some r2 => some (1 - r1, 1 - r2)
     | _, _ => none
 
+/-- `f64::powi(a, b)` for `b ≥ 0`: compiler-builtins' `__powidf2` (binary exponentiation by multiplication only:
+    `mul = 1; loop { if b & 1 { mul *= a }; b >>= 1; if b == 0 { break }; a *= a }`) -/
+def rustPowiAux : Nat → Float → Nat → Float → Float
+  | 0, _, _, mul => mul
+  | fuel + 1, a, b, mul =>
+    let mul := if b % 2 = 1 then mul * a else mul
+    let b := b / 2
+    if b = 0 then mul else rustPowiAux fuel (a * a) b mul
+
+def rustPowi (a : Float) (b : Nat) : Float := rustPowiAux 64 a b 1.0
+
+/-- `r1_to_q(k, r1) = 1.0 - (1.0 - r1).powi(k as i32)` (Python uses the C library's `pow` here) -/
+def rustR1ToQ (k : Nat) (r1 : Float) : Float := 1.0 - rustPowi (1.0 - r1) k
+
+/-- `exp_n_mutated(l, k, r1) = l * q` -/
+def rustExpNMutated (l : Float) (k : Nat) (r1 : Float) : Float := l * rustR1ToQ k r1
+
+/-- `var_n_mutated(l, k, r1, None)`; `var_n < 0.0` -> `Err(ANIEstimationError)` -/
+def rustVarNMutated (l : Float) (k : Nat) (r1 : Float) : Except String Float :=
+  if r1 == 0.0 then .ok 0.0 else
+  let q := rustR1ToQ k r1
+  let kf := k.toFloat
+  let varN := l * (1.0 - q) * (q * (2.0 * kf + (2.0 / r1) - 1.0) - 2.0 * kf)
+    + kf * (kf - 1.0) * rustPowi (1.0 - q) 2
+    + (2.0 * (1.0 - q) / rustPowi r1 2) * ((1.0 + (kf - 1.0) * (1.0 - q)) * r1 - q)
+  if varN < 0.0 then .error "ANIEstimationError" else .ok varN
+
+/-- `exp_n_mutated_squared(l, k, p) = var_n_mutated(l, k, p)? + exp_n_mutated(l, k, p).powi(2)` -/
+def rustExpNMutatedSquared (l : Float) (k : Nat) (p : Float) : Except String Float := do
+  let v ← rustVarNMutated l k p
+  pure (v + rustPowi (rustExpNMutated l k p) 2)
+
+/-- `get_exp_probability_nothing_common(ani_estimate, ksize, f_scaled, n_unique_kmers)` -/
+def rustPNothingInCommon (ani : Float) (k : Nat) (fScaled n : Float) : Float :=
+  if ani == 0.0 || ani == 1.0 then 1.0 - ani else
+  let expNmut := rustExpNMutated n k (1.0 - ani)
+  let elp := (n - expNmut) * Float.log (1.0 - fScaled)
+  let elp := if elp.isInf then -(1.0 / 0.0) else elp
+  Float.exp elp
+
+/-- the two exact branches of `ani_ci_from_containment` (`containment == 0.0 -> (0, 0)`, `== 1.0 -> (1, 1)`);
+    everything else goes through `probit` (statrs) and `find_root_brent` (roots), which are not modelled -/
+def rustAniCiExact (c : Float) : Option (Float × Float) :=
+  if c == 0.0 then some (0.0, 0.0) else if c == 1.0 then some (1.0, 1.0) else none
+
+/-! ### `MinHash.size_is_accurate` / `set_size_exact_prob`: the decision structure
+
+`binom.cdf` / `binom.pmf` (scipy) are parameters.  `size_is_accurate(relative_error=0.20, confidence=0.95)`:
+TypeError for a num sketch, ValueError unless both parameters are in [0,1], then
+`set_size_exact_prob(len * scaled, scaled, relative_error=…) >= confidence`. -/
+
+/-- `set_size_exact_prob`: `pmf_arg = -set_size / scaled * (relative_error - 1)`; when it is an integer the
+    lower boundary point is added back (`+ binom.pmf(pmf_arg, …)`), otherwise not -/
+def setSizeExactProb {V : Type} [Add V] [Sub V] (pmfArgIsInt : Bool) (cdfHi cdfLo pmfLo : V) : V :=
+  if pmfArgIsInt then cdfHi - cdfLo + pmfLo else cdfHi - cdfLo
+
+/-- the three arguments of the scipy calls, binary64, in Python's operation order:
+    `set_size / scaled * (relative_error + 1)`, `-set_size / scaled * (relative_error - 1)`, and whether the latter
+    `== int(…)` -/
+def setSizeArgs (setSize scaled : Nat) (relErr : Float) : Float × Float × Bool :=
+  let hi := setSize.toFloat / scaled.toFloat * (relErr + 1)
+  let lo := -(setSize.toFloat) / scaled.toFloat * (relErr - 1)
+  (hi, lo, lo.isFinite && lo == (if lo < 0 then lo.ceil else lo.floor))
+
+inductive SizeAcc where
+  | typeError      -- not a scaled sketch
+  | valueError     -- relative_error / confidence outside [0,1]
+  | answer (accurate : Bool)
+deriving DecidableEq, Repr
+
+/-- `MinHash.size_is_accurate`: parameter checks, then `probability >= confidence` -/
+def sizeIsAccurate {V : Type} [LE V] [DecidableLE V] [OfNat V 0] [OfNat V 1]
+    (scaled : Nat) (relErr confidence probability : V) : SizeAcc :=
+  if scaled = 0 then .typeError
+  else if ¬ ((0 : V) ≤ relErr ∧ relErr ≤ 1) ∨ ¬ ((0 : V) ≤ confidence ∧ confidence ≤ 1) then .valueError
+  else .answer (decide (confidence ≤ probability))
+
+/-- the deprecated `set_size_chernoff` is not called by `size_is_accurate` (the translator checks that) -/
+def sizeAccuracyFormula : String := "set_size_exact_prob"
+
 end Sm.Ani
